@@ -781,6 +781,26 @@ def replay_text_conversion(index, ob, seed, saved=None):
                 return _r(True, input={"text": text}, observed=got, expected=want, function=name)
         if svc.convert_text_content(text, False) != text:
             return _r(True, input={"text": text, "enable_conversion": False}, observed=svc.convert_text_content(text, False), expected=text, function="convert_text_content")
+    # texts without any letter: digits, punctuation, the literal tokens (>= <= ^ _ newline)
+    row = index.real_module("rtflite.row")
+
+    def escape(s_):
+        out = []
+        for ch in s_:
+            cp = ord(ch)
+            if cp <= 127:
+                out.append(ch)
+            else:
+                units = [cp] if cp <= 0xFFFF else [0xD800 + ((cp - 0x10000) >> 10), 0xDC00 + ((cp - 0x10000) & 0x3FF)]
+                out.extend(f"\\uc1\\u{u - (0 if u < 32768 else 65536)}*" for u in units)
+        return "".join(out)
+    for text in (">=60", "<=0.05", "(>=18)", "12 <= 34 >= 5", "2^3", "1_2", "5\n6", ">= ", "100%", "3.5 (2.1)"):
+        got_on = row.TextContent(text=text, convert=True)._convert_special_chars()
+        got_off = row.TextContent(text=text, convert=False)._convert_special_chars()
+        want_on = escape(reference_convert(text, table, strict=False))          # the known '>=' / '<=' delimiter-space deviation is not what is looked for
+        if got_on != want_on or got_off != escape(text):
+            return _r(True, input={"text": text}, observed={"convert_on": got_on, "convert_off": got_off}, expected={"convert_on": want_on, "convert_off": escape(text)},
+                      function="TextContent._convert_special_chars")
     res = bounded_reference(index, "quick", seed)
     for f in res.get("failures", []):
         if f["name"] != "comparison_sign_followed_by_extra_space":
